@@ -97,7 +97,9 @@ def _post_affinity(geometry1, geometry2, time_buffer, freq_buffer, result):
     if low_dim and not (tb > 0 and fb > 0):
         c.ood("affinity:zero_buffer_with_0_or_1d_geometry")
         return True
-    if not (geoms.is_shapely_valid(g1) and geoms.is_shapely_valid(g2)):
+    # (intervals and boxes are given in closed form: one drawn without duration or bandwidth is a legitimate geometry of
+    # zero extent -- the statement exempts it only from the self-affinity clause -- although shapely calls the flat ring invalid)
+    if not all(s["type"] in ("TimeStamp", "TimeInterval", "BoundingBox") or geoms.is_shapely_valid(g) for s, g in ((s1, g1), (s2, g2))):
         c.ood("affinity:invalid_geometry")
         return True
     c.mon("compute_affinity.post")
@@ -476,6 +478,31 @@ def run(ctx):
                     s2 = s1 if (placement == "identical" and t1 == t2 and rng.random() < 0.5) else geoms.geom_in_box(rng, t2, *b2)
                     seen_pairs.add((t1, t2))
                     ctx.case((t1, t2, placement, bname), {"g1": s1, "g2": s2, "tb": tb, "fb": fb}, nontrivial=(s1 != s2))
+                    judge(ctx, s1, s2, tb, fb)
+    # zero-extent intervals and boxes (an annotator's click-and-release; a tonal call drawn as a flat box) against every
+    # type, inside / on the edge of / away from the other geometry's extent
+    for t2 in geoms.TYPES:
+        for flat in ("zero_duration_box", "zero_bandwidth_box", "point_box", "zero_interval"):
+            for where in ("inside", "edge", "time_disjoint"):
+                for bname in ("default", "large", "zero"):
+                    if bname == "zero" and t2 in geoms.ZERO_ONE_D:
+                        continue
+                    tb, fb = BUFFERS[bname]
+                    b2 = geoms.random_box(rng, rng.choice(["realistic", "dyadic"]))
+                    s2 = geoms.geom_in_box(rng, t2, *b2)
+                    tm = {"inside": (b2[0] + b2[1]) / 2, "edge": b2[1], "time_disjoint": b2[1] + 3 * tb + 1.0}[where]
+                    fm = (b2[2] + b2[3]) / 2
+                    if flat == "zero_duration_box":
+                        s1 = {"type": "BoundingBox", "coordinates": [tm, b2[2], tm, b2[3]]}
+                    elif flat == "zero_bandwidth_box":
+                        s1 = {"type": "BoundingBox", "coordinates": [b2[0] if where != "time_disjoint" else tm, fm, tm if where != "time_disjoint" else tm + 1.0, fm]}
+                    elif flat == "point_box":
+                        s1 = {"type": "BoundingBox", "coordinates": [tm, fm, tm, fm]}
+                    else:
+                        s1 = {"type": "TimeInterval", "coordinates": [tm, tm]}
+                    if rng.random() < 0.5:
+                        s1, s2 = s2, s1
+                    ctx.case((s1["type"], s2["type"], "zero_extent:" + flat, where, bname), {"g1": s1, "g2": s2, "tb": tb, "fb": fb})
                     judge(ctx, s1, s2, tb, fb)
     if len(seen_pairs) < 81:
         ctx.inconclusive_because(f"type_pair_cells_empty:{81 - len(seen_pairs)}")
